@@ -123,8 +123,32 @@ def install():
     import virocon.utils as vu
 
     M.wrap(vc.HighestDensityContour, "cumsum_biggest_until", pre=_pre_cumsum, post=_post_cumsum, tag="hdc")
-    # contours.py binds the sorter with `from ... import`: patch both namespaces
-    M.wrap(vu, "sort_points_to_form_continuous_line", post=_post_sorter, tag="hdc", is_method=False)
+    # contours.py binds the sorter with `from ... import`: patch both namespaces.
+    # The sorter is a pure function: its postcondition is an icontract.ensure with a NAMED condition that records
+    # and returns True (the call form with a lambda turns a violation into a SyntaxError in icontract 2.7.3);
+    # if icontract is not installable the plain wrapper is used instead.
+    try:
+        import icontract
+
+        orig = vu.sort_points_to_form_continuous_line
+
+        def sorter_returns_a_permutation(x, y, result):
+            c = M.current()
+            if c is not None and M._depth() == 0:
+                c.count("icontract.ensure[sorter]")
+                rec = {"x": np.asarray(x, float), "y": np.asarray(y, float), "rx": np.asarray(result[0], float), "ry": np.asarray(result[1], float)}
+                OBS.setdefault("sorter", []).append(rec)
+                if JUDGE_SORTER[0]:
+                    with M.quiet():
+                        judge_sorter(c, rec)
+            return True
+
+        class SorterPostconditionBroken(Exception):
+            pass
+
+        vu.sort_points_to_form_continuous_line = icontract.ensure(sorter_returns_a_permutation, error=SorterPostconditionBroken)(orig)
+    except Exception:  # noqa: BLE001 - icontract missing: same oracle through the plain wrapper
+        M.wrap(vu, "sort_points_to_form_continuous_line", post=_post_sorter, tag="hdc", is_method=False)
     vc.sort_points_to_form_continuous_line = vu.sort_points_to_form_continuous_line
     import virocon
 
